@@ -15,6 +15,7 @@ func init() {
 	vpRegister("vpH_C16_manyfields", vpH_C16_manyfields)
 	vpRegister("vpH_K11_statsmerge", vpH_K11_statsmerge)
 	vpRegister("vpH_C17_assoc", vpH_C17_assoc)
+	vpRegister("vpH_C17_prefix", vpH_C17_prefix)
 	vpRegister("vpH_C18_match", vpH_C18_match)
 }
 
@@ -24,6 +25,12 @@ func vpStatsCheck(tag string, seg segment.Segment, exp *vpExpect, merged bool) {
 		vpMust(err, "CollectionStats")
 		if _, known := exp.post[f]; !known {
 			vpAssert(st.TotalDocumentCount() == 0 && st.DocumentCount() == 0 && st.SumTotalTermFrequency() == 0, tag+": unknown field has zero statistics")
+			// the caller folds other statistics into the value it got: a later
+			// request for an unknown field still reports zeros
+			st.Merge(&CollectionStats{totalDocCount: 3, docCount: 2, sumTotalTermFreq: 5})
+			st2, err := seg.CollectionStats(f)
+			vpMust(err, "CollectionStats")
+			vpAssert(st2.TotalDocumentCount() == 0 && st2.DocumentCount() == 0 && st2.SumTotalTermFrequency() == 0, tag+": unknown field has zero statistics (after the caller merged into an earlier result)")
 			continue
 		}
 		vpAssert(st.TotalDocumentCount() == exp.count && st.TotalDocumentCount() == seg.Count(), tag+": TotalDocumentCount")
@@ -305,4 +312,37 @@ func vpH_C18_match() {
 		}
 	}
 	vpReach("C18 match end")
+}
+
+// C17 with three inputs whose field lists share a prefix only ([_id a],
+// [_id a bb], [_id a b], all stored; four input orders): all at once vs both bracketings.
+func vpH_C17_prefix() {
+	g := vpNewGen(0)
+	// [_id a], [_id a bb] (bb stored), [_id a b] (b stored): bb's number shifts in the merge
+	mid := g.doc(2, 0)
+	mid.fields = append(mid.fields, &vpField{name: "bb", store: true, value: g.bytes("val", 2), length: 1, terms: []*vpTerm{{term: []byte("k"), freq: 1}}})
+	batches := [][]*vpDoc{{g.doc(2, 0)}, {mid}, {g.doc(9, 0)}}
+	g.done()
+	perm := [][3]int{{0, 1, 2}, {0, 2, 1}, {1, 0, 2}, {2, 1, 0}}[vpChoice("order", 4)]
+	var segs []*Segment
+	for _, k := range perm {
+		vpSetLengths(batches[k])
+		segs = append(segs, vpBuild(batches[k], 1025))
+	}
+	probeF, probeT := []string{"zz"}, []string{"q"}
+	all, _ := vpMergeBytes(segs, []*roaring.Bitmap{nil, nil, nil}, 1025)
+	obsAll := vpObserve(vpLoad(all), probeF, probeT)
+	ab, _ := vpMergeBytes(segs[:2], []*roaring.Bitmap{nil, nil}, 1025)
+	abc, _ := vpMergeBytes([]*Segment{vpLoad(ab), segs[2]}, []*roaring.Bitmap{nil, nil}, 1025)
+	vpSameObs("(ab)c vs abc", obsAll, vpObserve(vpLoad(abc), probeF, probeT))
+	bc, _ := vpMergeBytes(segs[1:], []*roaring.Bitmap{nil, nil}, 1025)
+	abc2, _ := vpMergeBytes([]*Segment{segs[0], vpLoad(bc)}, []*roaring.Bitmap{nil, nil}, 1025)
+	vpSameObs("a(bc) vs abc", obsAll, vpObserve(vpLoad(abc2), probeF, probeT))
+	// and against the model of the three documents
+	var docs []*vpDoc
+	for _, k := range perm {
+		docs = append(docs, batches[k]...)
+	}
+	vpMatchesModel("abc", obsAll, vpBuildExpect(docs, vpFieldNames(docs)), vpMatchOpts{merged: true, skipStats: vpSkipMergedStats})
+	vpReach("C17 prefix end")
 }
